@@ -71,7 +71,7 @@ def check(ctx):
 
     def cleared_(o):
         from .c07 import cleared
-        cleared(ctx, o, S)
+        cleared(ctx, o, S, fields=('start', 'end'))
     ctx.guarded(o, cleared_)
 
     o = ctx.ob('search_never_moves_back', 'R8',
@@ -85,7 +85,9 @@ def check(ctx):
 
     def clone_links(o):
         from .clone_common import clone_provenance
-        clone_provenance(ctx, o)
+        # the shared clone rule reports every unfaithfulness of the copy; C02 only depends on the links and the hierarchy of
+        # the copy, not on the order of siblings
+        clone_provenance(ctx, _Only(o, drop=("the order of siblings",)))
     ctx.guarded(o, clone_links)
 
     o = ctx.ob('clone_keeps_min_start_and_dates', 'R9',
@@ -94,7 +96,9 @@ def check(ctx):
 
     def faithful(o):
         from .clone_common import clone_provenance
-        clone_provenance(ctx, o, ('fields',))
+        # C02's bounds read min_start and the fixed dates of the copy: lost estimate / spent values are C04's and C10's matter,
+        # a deep copy of a date is an equal date
+        clone_provenance(ctx, _Only(o, drop=("__estimate", "__spent", "deepcopy()")), ('fields',))
     ctx.guarded(o, faithful)
 
     # the schedulers start their search at IResource.get_nearest_availability_date: its shape is C17's obligation, reused here
@@ -104,6 +108,24 @@ def check(ctx):
     o = ctx.ob('no_reservation_before_start_or_today', 'R8',
                "the fill loop is started at max(task.start, now()) and its first day is midnight of that date", floor=2)
     ctx.guarded(o, lambda o: fill_start(ctx, o, ps))
+
+
+class _Only:
+    """view of an obligation that forwards everything except refutations whose construct / message shows that they concern an
+    aspect of the shared clone rule this property does not depend on (those become matched sites: the clause was evaluated)"""
+
+    def __init__(self, o, drop):
+        self._o, self._drop = o, drop
+
+    def __getattr__(self, name):
+        return getattr(self._o, name)
+
+    def refute(self, func, node, construct, msg):
+        text = (construct if isinstance(construct, str) else src(construct)) + ' ' + msg
+        if any(d in text for d in self._drop):
+            self._o.site(func, node, "clone clause outside this property's scope (reported by C10 / C06)")
+            return
+        self._o.refute(func, node, construct, msg)
 
 
 def fill_start(ctx, o, ps: PassShape):
@@ -213,6 +235,34 @@ def first_day_offset(ctx, fill, S):
             return facts.day_delta(v.right) * (1 if isinstance(v.op, ast.Add) else -1)
         return None
 
+    # the cursor recomputed in every iteration from a step counter: `date = <midnight(start) + k0 days> + timedelta(days=n)` with
+    # `n` a counter that starts at a constant and is increased by exactly 1 per iteration  (the n-th visited day)
+    for d in fl.defs_of(dvar.id):
+        if d.kind == 'assign' and in_loop(d.node) and isinstance(d.value, ast.BinOp) and isinstance(d.value.op, (ast.Add, ast.Sub)):
+            sign = 1 if isinstance(d.value.op, ast.Add) else -1
+            tm = match("timedelta(days=$n)", d.value.right) or match("timedelta($n)", d.value.right)
+            if tm and isinstance(tm['n'], ast.Name):
+                cnt = tm['n'].id
+                cds = fl.defs_of(cnt)
+                inits = [x for x in cds if x.kind == 'assign' and not in_loop(x.node)]
+                steps = [x for x in cds if x not in inits]
+                bx = ex.expand(d.value.left, d.node, stop={start_p})
+                k0, base = 0, bx
+                while isinstance(base, ast.BinOp) and isinstance(base.op, (ast.Add, ast.Sub)) and facts.day_delta(base.right) is not None:
+                    k0 += facts.day_delta(base.right) * (1 if isinstance(base.op, ast.Add) else -1)
+                    base = base.left
+                mid = facts.is_midnight_of(base)
+                others = [x for x in fl.defs_of(dvar.id) if x is not d]
+                if len(inits) == 1 and facts.const_num(inits[0].value) is not None and len(steps) == 1 and steps[0].kind == 'aug' and \
+                        isinstance(steps[0].stmt.op, ast.Add) and facts.const_num(steps[0].stmt.value) == 1 and in_loop(steps[0].node) and \
+                        mid is not None and isinstance(mid, ast.Name) and mid.id == start_p and cfg.dominates(d.node, cn) and \
+                        all(x.kind == 'assign' and not in_loop(x.node) for x in others):
+                    n_first = facts.const_num(inits[0].value) + (1 if cfg.dominates(steps[0].node, d.node) else 0)
+                    off = k0 + sign * n_first
+                    if sign != S['dir']:
+                        return None
+                    return off, d.stmt
+                return None
     for d in fl.defs_of(dvar.id):
         if assign_step(d) is not None:
             (loop_steps if in_loop(d.node) else pre_steps).append(_Step(d, assign_step(d)))
